@@ -14,13 +14,13 @@ open Jsonb.Nom Jsonb.PathParser
 /-! ## Representation maps -/
 
 def ofArrayIndex : ArrayIndex → Tr.ArrayIndex
-  | .index i => .Index (ofIndex i)
-  | .slice s e => .Slice (ofIndex s, ofIndex e)
+  | .index i => .Index (ofIdx i)
+  | .slice s e => .Slice (ofIdx s, ofIdx e)
 
 def ofPathValue : PathValue → Tr.PathValue
   | .null => .Null
   | .bool b => .Boolean b
-  | .num n => .Number (ofNum n)
+  | .num n => .Number (ofNumber n)
   | .str s => .String s
 
 def ofBinOp : BinOp → Tr.BinaryOperator
@@ -109,8 +109,8 @@ theorem object_field_agr (ps : Bytes → Int → Int → Res (Bytes × Int)) (hp
 
 /-- the closure of the `last - n` alternative: exact integer semantics of `saturating_neg`, `clamp`, `as i32` -/
 theorem last_minus_closure (v : Int) :
-    Tr.Index.LastIndex (Rs.cast .i32 (Rs.clamp (Rs.saturatingNeg .i64 v) (-2147483648) 2147483647)) = ofIndex (lastMinus v) := by
-  unfold lastMinus ofIndex
+    Tr.Index.LastIndex (Rs.cast .i32 (Rs.clamp (Rs.saturatingNeg .i64 v) (-2147483648) 2147483647)) = ofIdx (lastMinus v) := by
+  unfold lastMinus ofIdx
   congr 1
   have hc : ∀ x : Int, -2147483648 ≤ x → x ≤ 2147483647 → Rs.cast .i32 x = x := fun x h1 h2 =>
     Rs.cast_of_inRange _ _ (by rw [Rs.inRange_iff]; simp; omega)
@@ -118,7 +118,7 @@ theorem last_minus_closure (v : Int) :
   simp only [Rs.maxVal_i64]
   split <;> split <;> split <;> (try split) <;> (try split) <;> first | (rw [hc _ (by omega) (by omega)]; done) | omega | (rw [hc _ (by omega) (by omega)]; omega)
 
-theorem index_agr : Agr L ofIndex index Tr.index := by
+theorem index_agr : Agr L ofIdx index Tr.index := by
   unfold index
   unfold Tr.index
   simp only [lit_last]
